@@ -643,6 +643,9 @@ func ruleC19Status(r *Run) {
 				def = true
 			} else if flowsFromValue(lf, rd.Params[len(rd.Params)-1]) {
 				fromArg = true
+				if flowsFromConstInt(lf, 301) {
+					def = true // e.g. FirstOr(optionalCode, 301)
+				}
 			}
 		}
 		okRD = fromArg && def && isLoadOfField(c.Common().Args[0], m.respF)
@@ -883,10 +886,7 @@ func ruleC19Arms(r *Run) {
 		}
 		return true
 	})
-	if flag == nil {
-		r.Undecided(rule, "render.Auto:handled flag", auto.Pos(), "no 'if !flag { return error }' found")
-		return
-	}
+	flagless := flag == nil
 	var sw *ast.SwitchStmt
 	ast.Inspect(fd.Body, func(n ast.Node) bool {
 		if s, ok := n.(*ast.SwitchStmt); ok && sw == nil {
@@ -900,7 +900,7 @@ func ruleC19Arms(r *Run) {
 	}
 	setsFlag := func(stmts []ast.Stmt) bool {
 		for _, st := range stmts {
-			if as, ok := st.(*ast.AssignStmt); ok && len(as.Lhs) == 1 && len(as.Rhs) == 1 {
+			if as, ok := st.(*ast.AssignStmt); ok && !flagless && len(as.Lhs) == 1 && len(as.Rhs) == 1 {
 				if id, ok := as.Lhs[0].(*ast.Ident); ok && (info.Uses[id] == flag || info.Defs[id] == flag) {
 					if v, ok := as.Rhs[0].(*ast.Ident); ok && v.Name == "true" {
 						return true
@@ -938,7 +938,7 @@ func ruleC19Arms(r *Run) {
 	}
 	r.Exists(rule, "render.Auto:supported types", sw.Pos(), supported >= 4, fmt.Sprintf("%d MIME constants appear in case lists", supported))
 	// the scan stops at the first handled type
-	okStop := false
+	okStop := flagless // every arm returns: the first supported type decides by construction
 	ast.Inspect(fd.Body, func(n ast.Node) bool {
 		fs, ok := n.(*ast.RangeStmt)
 		if !ok {
@@ -946,7 +946,7 @@ func ruleC19Arms(r *Run) {
 		}
 		for _, st := range fs.Body.List {
 			if ifs, ok := st.(*ast.IfStmt); ok {
-				if id, ok := ifs.Cond.(*ast.Ident); ok && info.Uses[id] == flag {
+				if id, ok := ifs.Cond.(*ast.Ident); ok && flag != nil && info.Uses[id] == flag {
 					for _, b := range ifs.Body.List {
 						if br, ok := b.(*ast.BranchStmt); ok && br.Tok == token.BREAK {
 							okStop = true
